@@ -1302,6 +1302,14 @@ class Piece:
                 if toks[k1 - 1].text in (";", "}"):
                     self._add(toks[k1].start, toks[k1].start, "\n" + text + "\n", arule)
                 continue
+            if where == "after_tail":
+                # right after the function's final expression (before the closing brace of the body): with a `before_tail` of
+                # `let r__ = ` this names the value the function returns, for a proof step about it
+                if toks[k1 - 1].text in (";",):
+                    raise Undecided(f"{fn.name}: the body does not end with an expression")
+                p = toks[k1 - 1].end
+                self._add(p, p, "\n" + text + "\n", arule)
+                continue
             if where == "before_tail":
                 # before the function's final expression (the value it returns when no `return` fires)
                 kt = k1 - 1
